@@ -72,6 +72,10 @@ func main() {
 		replay(os.Args[2])
 		return
 	}
+	if os.Args[1] == "replayall" {
+		replayAll(os.Args[2], os.Args[3])
+		return
+	}
 	id, tier := os.Args[1], os.Args[2]
 	if tier != "quick" && tier != "thorough" {
 		usage()
@@ -162,6 +166,32 @@ func main() {
 	}
 	common = append(common, "VERIF_ACTIVE="+activePath)
 
+	// Phase 1b: the saved inputs of repaired defects (regress/<id>/*) are replayed first.
+	regressInconclusive := false
+	{
+		dirs, _ := filepath.Glob(filepath.Join(verif, "regress", id, "*", "replay.json"))
+		for i := range dirs {
+			dirs[i] = filepath.Dir(dirs[i])
+		}
+		sort.Strings(dirs)
+		out := runReplays(id, testbin, goderive, dirs, filepath.Join(scratch, "regress"))
+		for _, d := range dirs {
+			st := out[d]
+			total.Extra["regression_replays"]++
+			switch st.status {
+			case "fail":
+				total.Violations = append(total.Violations, vrep.Violation{
+					Signature: map[string]string{"check": "regression-replay", "case": filepath.Base(d)},
+					Message:   "the saved input of a repaired defect fails again:\n" + tail(st.output, 2500),
+					Replay:    d,
+				})
+			case "inconclusive":
+				regressInconclusive = true
+				fmt.Printf("INCONCLUSIVE: regression replay %s did not run: %s\n", d, tail(st.output, 1500))
+			}
+		}
+	}
+
 	// Phase 2: shards.
 	type shardRes struct {
 		i   int
@@ -194,7 +224,7 @@ func main() {
 	}
 	wg.Wait()
 
-	inconclusive := false
+	inconclusive := regressInconclusive
 	for _, sr := range results {
 		rep, err := vrep.Read(filepath.Join(scratch, fmt.Sprintf("rep%d.json", sr.i)))
 		if err != nil {
@@ -390,4 +420,77 @@ func replay(dir string) {
 		os.Exit(1)
 	}
 	fmt.Printf("replay %s: property %s holds on this case\n", abs, id)
+}
+
+type replayStatus struct {
+	status string // pass | fail | inconclusive
+	output string
+}
+
+// runReplays runs TestReplay of an already built property test binary on every directory, in parallel.
+func runReplays(id, testbin, goderive string, dirs []string, scratch string) map[string]replayStatus {
+	verif := gorun.VerifDir()
+	out := map[string]replayStatus{}
+	var mu sync.Mutex
+	var wg sync.WaitGroup
+	sem := make(chan struct{}, 16)
+	for i, d := range dirs {
+		wg.Add(1)
+		go func(i int, d string) {
+			defer wg.Done()
+			sem <- struct{}{}
+			defer func() { <-sem }()
+			sd := filepath.Join(scratch, fmt.Sprintf("r%d", i))
+			os.MkdirAll(sd, 0o755)
+			defer os.RemoveAll(sd)
+			env := append(os.Environ(), "VERIF_REPLAY="+d, "VERIF_GODERIVE="+goderive, "VERIF_SCRATCH="+sd,
+				"VERIF_FINDINGS="+filepath.Join(verif, "known_findings.json"), "VERIF_DIR="+verif, "VERIF_REPO="+gorun.Repo())
+			res := gorun.Run(verif, 30*time.Minute, env, testbin, "-test.run", "^TestReplay$", "-test.v", "-test.timeout", "0")
+			st := replayStatus{status: "pass", output: res.Stdout + res.Stderr}
+			if res.TimedOut {
+				st.status = "inconclusive"
+			} else if res.Exit != 0 {
+				if strings.Contains(st.output, "still fails") && !strings.Contains(st.output, "still fails: no report") {
+					st.status = "fail"
+				} else {
+					st.status = "inconclusive"
+				}
+			}
+			mu.Lock()
+			out[d] = st
+			mu.Unlock()
+		}(i, d)
+	}
+	wg.Wait()
+	return out
+}
+
+// replayAll prints one line per replay directory under root (a directory of replay directories).
+func replayAll(id, root string) {
+	verif := gorun.VerifDir()
+	os.MkdirAll(gorun.ScratchBase(), 0o755)
+	scratch, err := os.MkdirTemp(gorun.ScratchBase(), "replayall-"+id+"-")
+	if err != nil {
+		fail2("scratch: %v", err)
+	}
+	defer os.RemoveAll(scratch)
+	goderive := filepath.Join(scratch, "goderive")
+	if err := gorun.BuildGoderive(goderive); err != nil {
+		os.RemoveAll(scratch)
+		fail2("%v", err)
+	}
+	testbin := filepath.Join(scratch, id+".test")
+	if r := gorun.Go(verif, 10*time.Minute, "test", "-c", "-o", testbin, "./props/"+strings.ToLower(id)); r.Exit != 0 {
+		os.RemoveAll(scratch)
+		fail2("building test binary: %s", r.Stderr)
+	}
+	dirs, _ := filepath.Glob(filepath.Join(root, "*", "replay.json"))
+	for i := range dirs {
+		dirs[i] = filepath.Dir(dirs[i])
+	}
+	sort.Strings(dirs)
+	out := runReplays(id, testbin, goderive, dirs, filepath.Join(scratch, "r"))
+	for _, d := range dirs {
+		fmt.Printf("%s %s\n", out[d].status, d)
+	}
 }
